@@ -1,8 +1,359 @@
-//! C06 — not built yet (stub).
+//! C06 — conditionals render exactly one branch, chosen by Liquid truth and comparison.
+//!
+//! non-trivial rule: operator cells — the two operands differ by strict dump or are not plain
+//! scalars; chain/case programs — at least two arms or two atoms.
+use super::common::{run_case, Case};
+use crate::cfg::{parser, Config};
 use crate::ctx::Ctx;
+use crate::exec::{render, Out};
+use crate::gen::ast::*;
+use crate::refm;
+use crate::rng::{hash_str, Rng};
+use crate::val::{arr, obj, s, RVal};
+use liquid::model::ValueViewCmp;
+use liquid::Object;
+use serde_json::json;
 
-pub fn run(_ctx: &mut Ctx) {}
+pub fn pool() -> Vec<RVal> {
+    vec![
+        RVal::Nil,
+        RVal::Bool(true),
+        RVal::Bool(false),
+        RVal::Int(0),
+        RVal::Int(1),
+        RVal::Int(-1),
+        RVal::Int(2),
+        RVal::Int(10),
+        RVal::Float(0.0),
+        RVal::Float(1.0),
+        RVal::Float(1.5),
+        RVal::Float(-1.0),
+        RVal::Float(2.0),
+        s(""),
+        s(" "),
+        s("\n"),
+        s("1"),
+        s("1.0"),
+        s("a"),
+        s("ab"),
+        s("b"),
+        s("A"),
+        s("true"),
+        s("é"),
+        arr(vec![]),
+        arr(vec![RVal::Int(1)]),
+        arr(vec![RVal::Int(1), s("a")]),
+        arr(vec![s("a")]),
+        obj(vec![]),
+        obj(vec![("a", RVal::Int(1))]),
+        RVal::Empty,
+        RVal::Blank,
+    ]
+}
 
-pub fn replay(_j: &serde_json::Value) -> bool {
-    false
+fn has_literal(v: &RVal) -> bool {
+    match v {
+        RVal::Array(_) | RVal::Object(_) => false,
+        // the grammar has no escape sequences: a string literal cannot hold its own quote
+        RVal::Str(s) => !(s.contains('\'') && s.contains('"')),
+        RVal::Float(f) => f.is_finite(),
+        _ => true,
+    }
+}
+
+fn api_result(a: &liquid::model::Value, op: Op, b: &liquid::model::Value) -> Option<bool> {
+    let (ca, cb) = (ValueViewCmp::new(a), ValueViewCmp::new(b));
+    Some(match op {
+        Op::Eq => ca == cb,
+        Op::Ne | Op::NeAlt => ca != cb,
+        Op::Lt => ca < cb,
+        Op::Gt => ca > cb,
+        Op::Le => ca <= cb,
+        Op::Ge => ca >= cb,
+        Op::Contains => return None,
+    })
+}
+
+fn operator_cells(ctx: &mut Ctx) {
+    let pool = pool();
+    let p = parser(Config::Stdlib);
+    for op in Op::ALL {
+        for (i, a) in pool.iter().enumerate() {
+            for (j, b) in pool.iter().enumerate() {
+                // each side as literal and through a variable
+                for (la, lb) in [(false, false), (true, false), (false, true), (true, true)] {
+                    if (la && !has_literal(a)) || (lb && !has_literal(b)) {
+                        continue;
+                    }
+                    let sa = if la { lit_src(a) } else { "x".to_string() };
+                    let sb = if lb { lit_src(b) } else { "y".to_string() };
+                    let src = format!("{{% if {sa} {} {sb} %}}T{{% else %}}F{{% endif %}}", op.src());
+                    let h = hash_str(&format!("{src}|{i}|{j}"));
+                    if !ctx.mine(h) {
+                        continue;
+                    }
+                    let t = match p.parse(&src) {
+                        Ok(t) => t,
+                        Err(e) => {
+                            ctx.violation("operator:well-formed-condition-rejected", &format!("{src:?}: {}", e.to_string().lines().next().unwrap_or("")), || json!({"kind": "render", "config": "stdlib", "template": src, "partials": [], "data": {}}));
+                            continue;
+                        }
+                    };
+                    let (va, vb) = (a.to_liquid(), b.to_liquid());
+                    let mut o = Object::new();
+                    o.insert("x".into(), va.clone());
+                    o.insert("y".into(), vb.clone());
+                    let out = render(&t, &o);
+                    let nontrivial = a.dump() != b.dump() || !matches!(a, RVal::Int(_) | RVal::Str(_) | RVal::Float(_));
+                    ctx.record(h, nontrivial);
+                    ctx.count(&format!("operator:{}", op.src()));
+                    let replay = || {
+                        json!({"kind": "render", "config": "stdlib", "template": src, "partials": [],
+                            "data": RVal::Object(vec![("x".into(), a.clone()), ("y".into(), b.clone())]).to_json()})
+                    };
+                    let got = match &out {
+                        Out::Ok(s) if s == "T" => Some(true),
+                        Out::Ok(s) if s == "F" => Some(false),
+                        Out::Ok(s) => {
+                            ctx.violation("not-exactly-one-branch", &format!("{src:?} rendered {s:?}"), replay);
+                            continue;
+                        }
+                        Out::Err(_) => None,
+                        Out::Panic(pn) => {
+                            ctx.violation(&pn.key(), &format!("{src:?} panicked: {}", pn.msg), replay);
+                            continue;
+                        }
+                        Out::BadUtf8(_) => continue,
+                    };
+                    // L1 plumbing: the branch equals the value model's answer through the Rust API
+                    if let Some(api) = api_result(&va, op, &vb) {
+                        ctx.count("L1:compared-with-rust-api");
+                        if got != Some(api) {
+                            ctx.violation(
+                                &format!("L1:template-disagrees-with-value-model:{}", op.src()),
+                                &format!("{src:?} with x={} y={}: template chose {got:?}, ValueViewCmp says {api}", a.dump(), b.dump()),
+                                replay,
+                            );
+                        }
+                    }
+                    // L2 independent table on the cells the statement fixes
+                    if let Some(want) = refm::compare(a, op, b) {
+                        ctx.count("L2:compared-with-independent-table");
+                        if got != Some(want) {
+                            ctx.violation(
+                                &format!("L2:comparison-differs-from-table:{}", op.src()),
+                                &format!("{src:?} with x={} y={}: template chose {got:?}, the statement's table says {want}", a.dump(), b.dump()),
+                                replay,
+                            );
+                        }
+                    } else {
+                        ctx.count("L2:cell-not-claimed");
+                    }
+                    ctx.sample(|| json!({"template": src, "x": a.dump(), "y": b.dump(), "chosen": format!("{got:?}")}));
+                }
+            }
+        }
+    }
+    // bare truthiness of every pool value, literal and variable, plus undefined names
+    for (i, a) in pool.iter().enumerate() {
+        for lit in [false, true] {
+            if lit && !has_literal(a) {
+                continue;
+            }
+            let sa = if lit { lit_src(a) } else { "x".to_string() };
+            for (kw, neg) in [("if", false), ("unless", true)] {
+                let src = format!("{{% {kw} {sa} %}}T{{% else %}}F{{% end{kw} %}}");
+                let h = hash_str(&format!("{src}|{i}"));
+                if !ctx.mine(h) {
+                    continue;
+                }
+                let t = p.parse(&src).expect("truthiness template");
+                let mut o = Object::new();
+                o.insert("x".into(), a.to_liquid());
+                let out = render(&t, &o);
+                ctx.record(h, true);
+                ctx.count("truthiness-cells");
+                // empty/blank literals as bare values are markers, not data: not claimed
+                if matches!(a, RVal::Empty | RVal::Blank) {
+                    continue;
+                }
+                let want = refm::truthy(a) != neg;
+                if out.ok() != Some(if want { "T" } else { "F" }) {
+                    ctx.violation("truthiness-differs", &format!("{src:?} with x={}: got {:?}, a bare value is true unless nil or false", a.dump(), out.summary()), || {
+                        json!({"kind": "render", "config": "stdlib", "template": src, "partials": [], "data": RVal::Object(vec![("x".into(), a.clone())]).to_json()})
+                    });
+                }
+            }
+        }
+    }
+}
+
+fn marker(i: usize) -> Vec<Node> {
+    vec![Node::Text(format!("<{i}>"))]
+}
+
+fn chains(ctx: &mut Ctx) {
+    // if/elsif chains with all truth assignments over {true, false, undefined}
+    let vals = [Some(true), Some(false), None];
+    for arms in 1..=4usize {
+        let total = 3usize.pow(arms as u32);
+        for code in 0..total {
+            let mut kv: Vec<(String, RVal)> = Vec::new();
+            let mut c = code;
+            for k in 0..arms {
+                if let Some(b) = vals[c % 3] {
+                    kv.push((format!("t{k}"), RVal::Bool(b)));
+                }
+                c /= 3;
+            }
+            let data = RVal::Object(kv);
+            for with_else in [false, true] {
+                let arms_nodes: Vec<(Cond, Vec<Node>)> = (0..arms).map(|k| (Cond::atom(Atom::Truthy(Expr::var(&format!("t{k}")))), marker(k))).collect();
+                let main = vec![Node::Text("[".into()), Node::If { arms: arms_nodes.clone(), else_: if with_else { Some(marker(9)) } else { None } }, Node::Text("]".into())];
+                run_case(ctx, &Case { main: &main, partials: &[], data: &data, family: "if-elsif-chain", strip_newlines: false, style_seed: code as u64 }, arms >= 2);
+                if arms == 1 {
+                    let main = vec![Node::Text("[".into()), Node::Unless { cond: arms_nodes[0].0.clone(), body: marker(0), else_: if with_else { Some(marker(9)) } else { None } }, Node::Text("]".into())];
+                    run_case(ctx, &Case { main: &main, partials: &[], data: &data, family: "unless", strip_newlines: false, style_seed: code as u64 }, true);
+                }
+            }
+        }
+    }
+    // and/or chains of the claimed shapes: or* and*  (x1 or x2 or (x3 and x4))
+    for len in 1..=4usize {
+        for n_or in 0..len {
+            // atoms 0..=n_or-1 are or-operands, the rest form one and-group
+            for code in 0..(1usize << len) {
+                let data = RVal::Object((0..len).map(|k| (format!("t{k}"), RVal::Bool(code >> k & 1 == 1))).collect());
+                let mut ors: Vec<Vec<Atom>> = (0..n_or).map(|k| vec![Atom::Truthy(Expr::var(&format!("t{k}")))]).collect();
+                ors.push((n_or..len).map(|k| Atom::Truthy(Expr::var(&format!("t{k}")))).collect());
+                let main = vec![Node::If { arms: vec![(Cond { ors }, marker(1))], else_: Some(marker(0)) }];
+                run_case(ctx, &Case { main: &main, partials: &[], data: &data, family: "and-or-grouping", strip_newlines: false, style_seed: code as u64 }, len >= 2);
+            }
+        }
+    }
+    // case/when: 1..4 arms, value lists with duplicates and overlaps, comma and `or`
+    let targets = [RVal::Int(1), RVal::Int(2), s("a"), s("1"), RVal::Nil, RVal::Float(1.0), s("")];
+    let whens = [RVal::Int(1), RVal::Int(2), s("a"), s("1"), RVal::Float(2.0), RVal::Nil];
+    let mut rng = ctx.rng("c06-case");
+    let n = ctx.scale(6_000u64, 60_000u64);
+    for i in 0..n {
+        let mut r = rng.fork(i);
+        rng.next();
+        let arms = 1 + r.below(4);
+        let target = r.pick(&targets).clone();
+        let arm_nodes: Vec<(Vec<Expr>, bool, Vec<Node>)> = (0..arms)
+            .map(|k| {
+                let nv = 1 + r.below(3);
+                ((0..nv).map(|_| Expr::Lit(r.pick(&whens).clone())).collect(), r.chance(1, 2), marker(k))
+            })
+            .collect();
+        let through_var = r.chance(1, 2);
+        let data = RVal::Object(vec![("x".into(), target.clone())]);
+        let main = vec![
+            Node::Text("[".into()),
+            Node::Case { target: if through_var || !has_literal(&target) { Expr::var("x") } else { Expr::Lit(target.clone()) }, arms: arm_nodes, else_: if r.chance(1, 2) { Some(marker(9)) } else { None } },
+            Node::Text("]".into()),
+        ];
+        run_case(ctx, &Case { main: &main, partials: &[], data: &data, family: "case-when", strip_newlines: false, style_seed: r.next() }, arms >= 2);
+    }
+}
+
+fn random_nesting(ctx: &mut Ctx) {
+    let n = ctx.scale(10_000u64, 200_000u64);
+    let rng = ctx.rng("c06-nest");
+    for i in 0..n {
+        let mut r = rng.fork(i);
+        let data = RVal::Object(vec![
+            ("a".into(), RVal::Int(r.range(0, 3))),
+            ("b".into(), s(r.choose(&["", "a", "ab"]))),
+            ("c".into(), if r.chance(1, 2) { RVal::Nil } else { RVal::Bool(r.chance(1, 2)) }),
+            ("d".into(), arr((0..r.below(3)).map(|k| RVal::Int(k as i64)).collect())),
+        ]);
+        let mut counter = 0usize;
+        let main = gen_cond_tree(&mut r, 0, &mut counter);
+        run_case(ctx, &Case { main: &main, partials: &[], data: &data, family: "random-nesting", strip_newlines: false, style_seed: r.next() }, true);
+    }
+}
+
+fn gen_atom(r: &mut Rng) -> Atom {
+    match r.below(8) {
+        0 => Atom::Truthy(Expr::var(r.choose(&["a", "b", "c", "d", "u"]))),
+        1 => Atom::Cmp(Expr::var("a"), *r.pick(&[Op::Eq, Op::Ne, Op::Lt, Op::Gt, Op::Le, Op::Ge]), Expr::int(r.range(0, 3))),
+        2 => Atom::Cmp(Expr::var("b"), *r.pick(&[Op::Eq, Op::Ne, Op::NeAlt, Op::Lt, Op::Ge]), Expr::str(r.choose(&["", "a", "b"]))),
+        3 => Atom::Cmp(Expr::var("b"), Op::Contains, Expr::str(r.choose(&["a", "b", ""]))),
+        4 => Atom::Cmp(Expr::var("d"), Op::Contains, Expr::int(r.range(0, 2))),
+        5 => Atom::Cmp(Expr::var(r.choose(&["b", "d"])), Op::Eq, Expr::Lit(RVal::Empty)),
+        6 => Atom::Cmp(Expr::var("a"), Op::Eq, Expr::var("b")),
+        _ => Atom::Cmp(Expr::var("b"), Op::Eq, Expr::Lit(RVal::Blank)),
+    }
+}
+
+fn gen_cond(r: &mut Rng) -> Cond {
+    let n_or = r.below(3);
+    let mut ors: Vec<Vec<Atom>> = (0..n_or).map(|_| vec![gen_atom(r)]).collect();
+    let n_and = 1 + r.below(2);
+    ors.push((0..n_and).map(|_| gen_atom(r)).collect());
+    Cond { ors }
+}
+
+fn gen_cond_tree(r: &mut Rng, depth: usize, counter: &mut usize) -> Vec<Node> {
+    let mut out = Vec::new();
+    let n = 1 + r.below(2);
+    for _ in 0..n {
+        *counter += 1;
+        let id = *counter;
+        let leaf = |c: &mut usize| {
+            *c += 1;
+            vec![Node::Text(format!("<{}>", *c))]
+        };
+        let sub = |r: &mut Rng, c: &mut usize| if depth < 2 && r.chance(1, 2) { gen_cond_tree(r, depth + 1, c) } else { leaf(c) };
+        let node = match r.below(3) {
+            0 => {
+                let arms = 1 + r.below(3);
+                Node::If { arms: (0..arms).map(|_| (gen_cond(r), sub(r, counter))).collect(), else_: if r.chance(1, 2) { Some(sub(r, counter)) } else { None } }
+            }
+            1 => Node::Unless { cond: gen_cond(r), body: sub(r, counter), else_: if r.chance(1, 2) { Some(sub(r, counter)) } else { None } },
+            _ => Node::Case {
+                target: Expr::var(r.choose(&["a", "b"])),
+                arms: (0..1 + r.below(3)).map(|_| (vec![Expr::Lit(r.pick(&[RVal::Int(0), RVal::Int(1), s("a"), s("")]).clone())], false, sub(r, counter))).collect(),
+                else_: if r.chance(1, 2) { Some(sub(r, counter)) } else { None },
+            },
+        };
+        out.push(Node::Text(format!("({id}")));
+        out.push(node);
+        out.push(Node::Text(")".into()));
+    }
+    out
+}
+
+pub fn run(ctx: &mut Ctx) {
+    ctx.start_watchdog(120);
+    operator_cells(ctx);
+    chains(ctx);
+    random_nesting(ctx);
+}
+
+pub fn replay(j: &serde_json::Value) -> bool {
+    if j["kind"] == "program" {
+        return super::common::replay_program(j);
+    }
+    // operator cell: re-run and re-judge
+    let violated = crate::checks::c02::replay(j);
+    let data = RVal::from_json(&j["data"]);
+    if let RVal::Object(kv) = &data {
+        let get = |n: &str| kv.iter().find(|(k, _)| k == n).map(|(_, v)| v.clone());
+        if let (Some(a), Some(b)) = (get("x"), get("y")) {
+            for op in Op::ALL {
+                if j["template"].as_str().unwrap_or("").contains(&format!(" {} ", op.src())) {
+                    println!("value model (Rust API): {:?}; statement's table: {:?}", api_result(&a.to_liquid(), op, &b.to_liquid()), refm::compare(&a, op, &b));
+                }
+            }
+        }
+    }
+    let _ = violated;
+    // reproduces iff the recorded key still applies: re-run the cell through the checker
+    let mut ctx = Ctx::new("C06", crate::ctx::Tier::Quick, 1, 0, 1, None);
+    operator_cells(&mut ctx);
+    let key = j["key"].as_str().unwrap_or("");
+    ctx.violation_counts.contains_key(key)
 }
